@@ -29,6 +29,10 @@ MATCHERS = {
                                              0x2020: 'UserData', 0x2022: 'Slice', 0x2023: 'Tileset'},
                                          ['asefile::parse::Chunk::read']),
 }
+# the spec field each matcher must be applied to (names of tables/spec_layout.json)
+FIELD = {'asefile::parse::parse_pixel_format': 'depth', 'asefile::layer::parse_layer_type': 'type', 'asefile::layer::parse_blend_mode': 'blend',
+         'asefile::cel::CelContent::parse': 'cel_type', 'asefile::tags::parse_animation_direction': 'dir',
+         'asefile::color_profile::parse_color_profile_type': 'type', 'asefile::parse::parse_chunk_type': 'chunk_type'}
 CEL_VIA = {0: 'asefile::cel::parse_raw_cel', 2: 'asefile::cel::parse_compressed_cel',
            3: 'asefile::tilemap::TilemapData::parse_chunk', 1: 'asefile::reader::AseReader::word'}
 
@@ -152,7 +156,7 @@ def run(ctx):
     fx = ctx.fx
     g = CG.get(fx)
     load = CG.load_cone(fx)
-    ctx.rules = ['T1 value table', 'T2 otherwise->Err', 'T3 decoder reached + propagated', 'T4 condition refusals',
+    ctx.rules = ['L1 refusal fields at spec position/width', 'T1 value table', 'T2 otherwise->Err', 'T3 decoder reached + propagated', 'T4 condition refusals',
                  'T5 tileset pixels must-pass-through', 'P8 error discipline on the LOAD cone']
     ctx.explanation = (
         'Static switch-table extraction over MIR. For each documented refusal the check finds the branch on the file '
@@ -164,6 +168,24 @@ def run(ctx):
         'Error discipline (no dropped Result) is checked on all fallible call sites of the loader cone. '
         'Not decided: which error variant is used; features not on the property\'s list.')
     literal_arms = 0
+
+    # ---------------- L1: the fields the refusals look at are read at their spec position and width (seed C15-g read the cel type as a
+    # BYTE: the refusal then sees only the low half and 0x0100 loads as a raw cel)
+    import layout
+    import spec as SP
+    import C07 as _c07
+    spec = SP.load_spec()
+    bindings = {}
+    for fn in sorted(spec['decoders']):
+        if fn in ('asefile::parse::read_aseprite', 'asefile::parse::Chunk::read', 'asefile::layer::parse_chunk', 'asefile::cel::parse_chunk',
+                  'asefile::color_profile::parse_chunk', 'asefile::tags::parse_chunk', 'asefile::tileset::Tileset::parse_chunk'):
+            bnd, _ = layout.check_layout(ctx, spec, fn, spec['decoders'][fn], rule='L1')
+            for k, v in bnd.items():
+                bindings.setdefault(k, v)
+    ctx.floor('read sites bound to spec fields in the refusing decoders', len(bindings), 40)
+    # .. and every chunk of a frame is handed to the dispatch (seed C15-h: min(old, new) count leaves the chunks after the 65535th,
+    # and whatever unsupported feature they carry, unparsed)
+    _c07.chunk_count_selection(ctx, 'T3')
 
     # ---------------- T1/T2/T3 value matchers
     for fn, (pidx, table, callers) in MATCHERS.items():
@@ -230,9 +252,14 @@ def run(ctx):
                          'the decoder call %s %s' % ('dominates' if dom else 'does NOT dominate', what), c.span,
                          key=ctx.key(cn, 'T3', 'dominates', fn))
                 at = q.arg_terms(c)[pidx - 1]
-                isread = any(common.is_read(x, ('byte', 'word', 'dword')) or is_param(x) for x in alts(strip_casts(at)))
-                ctx.inst('T3', '%s in %s#arg' % (fn, cn), isread, 'matched value is %s (must be a file field read)' % show(at),
-                         c.span, key=ctx.key(cn, 'T3', 'arg', fn))
+                def whole_field(x):
+                    if is_param(strip_casts(x)):
+                        return True
+                    inner, bad = layout.unwrap_value(q.expand(x, fx, 2, layout.noinl(fx)))
+                    return layout.is_read_term(inner) and not bad and bindings.get(inner[3], ('', ''))[1] == FIELD[fn]
+                isread = all(whole_field(x) for x in alts(at))
+                ctx.inst('T3', '%s in %s#arg' % (fn, cn), isread, 'matched value is %s (must be the whole `%s` field of the spec layout, not narrowed)'
+                         % (show(at), FIELD[fn]), c.span, key=ctx.key(cn, 'T3', 'arg', fn))
 
     pixel_ratio(ctx)
 
